@@ -183,11 +183,12 @@ where
                     *w = addmod(*w, *x, p);
                 }
             }
+            let mut big_average = false;
             if case.average {
-                if want[0] > u64::MAX as u128 {
-                    continue; // result type cannot represent it (DESIGN: excluded)
-                }
-                want = vec![(((want[0] as u64) as f64) / (b.len() as f64)).to_bits() as u128];
+                // the mean of the measurements as f64 (sums up to 2^64-1 are converted through u64 by
+                // the library; larger sums have no exact u64 form)
+                big_average = want[0] > u64::MAX as u128;
+                want = vec![if big_average { ((want[0] as f64) / (b.len() as f64)).to_bits() as u128 } else { (((want[0] as u64) as f64) / (b.len() as f64)).to_bits() as u128 }];
             }
             run.count("aggregations", 1);
             match pvh::engine::catch(|| vdaf.unshard(&(), agg_shares, b.len())) {
@@ -199,6 +200,10 @@ where
                     }
                 }
                 Ok(Err(e)) => {
+                    if big_average {
+                        run.fail("Average/sum>=2^64/unshard", &format!("{}: unshard of a batch whose plain sum is >= 2^64 fails instead of returning the mean: {e}", case.name), json!({"case": case.name, "batch": b}));
+                        continue;
+                    }
                     run.fail(&format!("{}/unshard", case.name), &format!("{}: unshard failed: {e}", case.name), json!({"case": case.name, "batch": b}));
                     return;
                 }
@@ -217,16 +222,19 @@ fn main() {
     let run = Run::from_args("C01", Level::Exploration);
     run.rule("instances (7 Prio3 types x parameter lattice x aggregators x proofs) x measurement domain (full when small, else edges) x tape alphabet (zero, 0xff, counter, seeded) x ctx {empty,1,300 bytes}; every message through its wire encoding; batches = singletons, all pairs, full, tripled; reference = plain integer aggregate mod p. distinct = distinct (instance, aggregators, proofs, tape) combinations fully verified");
     run.assume("sharding randomness / nonce / verify key / ctx come from a fixed tape alphabet (32-byte seeds are not enumerable)");
-    run.assume("Average instances whose sum exceeds u64 are skipped (result type cannot represent them)");
+
     let q = run.quick();
     let tapes = tape_alphabet(run.seed, if q { 2 } else { 16 });
     let p64 = Field64::p();
     let std = Config { aggs: vec![2, 3], proofs: vec![1, 2] };
     let wide = Config { aggs: if q { vec![1, 2, 5, 254] } else { vec![1, 2, 3, 4, 5, 16, 254] }, proofs: if q { vec![1, 3, 255] } else { vec![1, 2, 3, 255] } };
     let one = Config { aggs: vec![2], proofs: vec![1] };
+    // the 254-aggregator x 255-proof corner is exercised with Count only in the quick tier
+    let wide_count = Config { aggs: wide.aggs.clone(), proofs: wide.proofs.clone() };
+    let wide = if q { Config { aggs: vec![2, 5, 254], proofs: vec![1, 3] } } else { wide };
 
     // ---- deployed instantiations
-    run_case(&run, &count_case::<Field64>(), &wide, &tapes, false);
+    run_case(&run, &count_case::<Field64>(), &wide_count, &tapes, false);
     for max in [1u128, 2, 3, 4, 7, 8, 127, 128, 129, 255, 256, (1 << 31) - 1, 1 << 31, (1 << 32) - 1, 1 << 32, (1 << 32) + 1, (1u128 << 63) - 1, 1 << 63, (1u128 << 63) + 1, p64 - 2, p64 - 1] {
         run_case(&run, &sum_case::<Field64>(max), if max == 255 { &wide } else { &one }, &tapes, false);
     }
@@ -237,6 +245,7 @@ fn main() {
         }
     }
     run_case(&run, &average_case::<Field128>((1 << 62) + 5), &one, &tapes, false);
+    run_case(&run, &average_case::<Field128>(1 << 64), &one, &tapes[..1], false);
     // SumVec: every chunk length 1..flattened+2 for small shapes
     for (max, len) in [(1u128, 1usize), (1, 9), (3, 5), (255, 2), (6, 3)] {
         let flat = bits_of(max) * len;
